@@ -1,5 +1,5 @@
 """C10 -- graceful stop answers received calls; `stopped` resolves only when everything is done."""
-import json, os, re
+import json, os, random, re
 import vlib
 
 TRANSLATORS = []
@@ -24,6 +24,13 @@ TRUSTED = [
     "state machine and its graceful_shutdown, soketto; tied to coq/Model/Stop.v by the differential run only",
     "the model driver's closure over internal steps (modelrun/stop_driver.ml): gates, observer lag and the fact "
     "letters are driver-level bookkeeping outside the Coq model",
+    "reply fact `?` (harness): a WS reply not read by a client whose reader ended with an I/O error instead of the server's close frame is "
+    "unobservable (a reset after the server closed a socket with unread client data discards unread replies; a pong written into the closed "
+    "socket fails the client's receive()); accepted only when the history leaves client data unread on that connection "
+    "(reset_explicable: pings on, a call sent after the stop signal, a request whose handler never started), otherwise read as `-`",
+    "family back-pressure-writer-blocked (op N: `stopped` must not resolve within 300 ms while 3-4 replies of 8 MiB are queued for a client "
+    "that does not read) is generated only when /proc/sys/net/ipv4/tcp_wmem's maximum is at most 6 MiB; late reads (`r`) say nothing in "
+    "that family and read `R`",
 ]
 ASSUMPTIONS = [
     "partial: the send task's drain-before-stop (`future::select(rx_item, select(ping, stop))`) relies on select "
@@ -322,9 +329,51 @@ def parse(line):
             "to": lst(m.group(5)), "extra": m.group(6) or ""}
 
 
+def normal(a, script=""):
+    """A call whose handler never started has no reply to lose: its reply fact `?` (see reset_explicable) reads `-`.
+    In the writer-blocked family (op N) up to tcp_wmem bytes of the last reply sit in the kernel when `stopped` resolves and
+    the client still has to pull them through a 4 KiB window: a late read (`r`) says nothing there and reads `R`."""
+    if "N" in script.split():
+        a = re.sub(r"(?<=[=,])([-abc][-<>])r", r"\1R", a)
+    return re.sub(r"(?<=[=,])-([-<>])\?", r"-\1-", a) if "?" in a else a
+
+
+def reset_explicable(script, c, unread_on=None):
+    """A reply fact `?` (not read; the client's WS reader ended with an I/O error instead of the server's close frame) is
+    accepted as UNOBSERVABLE only when the history itself leaves client data unread on connection c -- pongs (config op
+    I<ms>), a call sent after `S`, or a request whose handler never started (unread_on): the server closes a socket with unread input, the kernel answers
+    with a reset, and a reset discards what the client had not read yet (and a pong written into the closed socket fails
+    the client's receive()).  Otherwise `?` counts as `-`."""
+    ops = script.split()
+    if any(o[0] == "I" for o in ops):
+        return True
+    if unread_on is not None and c in unread_on:
+        return True          # a request the server never read (handler never started) was sitting in the socket at the close
+    if "S" in ops:
+        return any(o == "s%d" % c for o in ops[ops.index("S"):])
+    return False
+
+
+def matches_model(script, a, alts):
+    """Membership of the implementation's fact line in the model's outcome set; an explicable `?` matches R, r or -."""
+    a = normal(a, script)
+    if a in alts:
+        return True
+    f = parse(a)
+    if f is None or not any(len(cl) >= 3 and cl[2] == "?" for cl in f["calls"]):
+        return False
+    call_conn = [int(o[1:]) for o in script.split() if o[0] == "s" and o[1:].isdigit()]
+    unread_on = set(call_conn[k] for k, cl in enumerate(f["calls"]) if cl[0] == "-")
+    for k, cl in enumerate(f["calls"]):
+        if cl[2] == "?" and not reset_explicable(script, call_conn[k], unread_on):
+            return False
+    pat = re.compile("^" + re.escape(a).replace(re.escape("?"), "[Rr-]") + "$")
+    return any(pat.match(x) for x in alts)
+
+
 def oracle(script, line):
     """The property restated on the implementation's fact line and the script alone.  Returns [(key, detail)]."""
-    f = parse(line)
+    f = parse(normal(line, script))
     if f is None:
         return [("stop-hung-or-crashed", line)]
     bad = []
@@ -359,12 +408,18 @@ def oracle(script, line):
                       if c not in dropped_before(ops, i) and ("a%d" % k) in ops[:i] and k not in released]
             if parked:
                 must_timeout.append("Z")
-    exp_to = [t for t in f["to"]]
+    unread_on = set(call_conn[k] for k, cl in enumerate(f["calls"]) if cl[0] == "-")
+    unobs = set(k for k, cl in enumerate(f["calls"]) if cl[2] == "?" and reset_explicable(script, call_conn[k], unread_on))
+    exp_to = [t for t in f["to"] if not (t[0] == "y" and t[1:].isdigit() and int(t[1:]) in unobs)]
     for t in must_timeout:
         if t in exp_to:
             exp_to.remove(t)
         else:
             bad.append(("stopped-before-handlers-finished", "`stopped` resolved while a started handler was parked"))
+    if "N!" in exp_to:
+        exp_to = [t for t in exp_to if t != "N!"]
+        bad.append(("stopped-before-replies-written", "`stopped` resolved while replies of finished calls were queued behind a "
+                    "client that was not reading (they exceed what the kernel buffers)"))
     if exp_to:
         bad.append(("stop-hung", "timed out: %s" % ",".join(exp_to)))
     if sig and watch and f["stopped"] != "yes":
@@ -376,6 +431,8 @@ def oracle(script, line):
         if late and s != "-":
             bad.append(("call-after-stopped-executed", "call %d was sent after `stopped` resolved and its handler ran" % k))
         # every call whose handler started on a connection the client kept is answered ...
+        if r == "?" and k not in unobs:
+            r = "-"
         if live and s != "-" and r == "-":
             bad.append(("started-call-not-answered", "handler of call %d started (%s the stop signal) and the client "
                         "never got a reply" % (k, "before" if s == "a" else "after")))
@@ -475,6 +532,24 @@ def gen_cases(ctx):
         cases.append(("T%d ch ch W s0 s1 a0 a1 S p p r0 f0 y0 %s r1 f1 y1 Z" % (ms, P(n)), "keepalive-short"))
     for _ in range(ctx.scale(12, 150)):
         cases.append((gen_keepalive(rng), "keepalive-short"))
+    # replies far larger than what the kernel can buffer (8 MiB each; tcp_wmem max is read below) queued for a client that
+    # does not read: the writer is blocked, so `stopped` must NOT resolve (op N) until the client reads again (g0)
+    try:
+        wmem_max = int(open("/proc/sys/net/ipv4/tcp_wmem").read().split()[2])
+    except Exception:
+        wmem_max = None
+    if wmem_max is not None and wmem_max <= 6 * 1024 * 1024:
+        for cap in ("", "B1 ", "B2 "):
+            for k in (3, 4):
+                pre = "%sP8192 W cW %s %s q0" % (cap, " ".join(["s0"] * k), " ".join("a%d" % i for i in range(k)))
+                for mid in ("S A", "A S", "S p A", "A p S S"):
+                    cases.append(("%s %s p p N g0 Z" % (pre, mid), "back-pressure-writer-blocked"))
+        if ctx.tier != "thorough":
+            rr = random.Random(ctx.seed * 31 + 10)
+            keep = [c for c in cases if c[1] == "back-pressure-writer-blocked"]
+            rr.shuffle(keep)
+            drop = set(t for t, _ in keep[8:])
+            cases = [c for c in cases if c[0] not in drop]
     seen, out = set(), []
     for t, tag in cases:
         if t not in seen:
@@ -511,11 +586,13 @@ def run(ctx):
             ctx.record(script, a, nontrivial=nontrivial)
             alts = b.split(" | ")
             ctx.count("model-outcomes-%s" % ("1" if len(alts) == 1 else "2-4" if len(alts) <= 4 else "5+"))
-            if a not in alts:
+            if not matches_model(script, a, alts):
                 ctx.fail("diff", "stop-model-differs", {"script": script}, {"impl": a, "model": alts[:12]})
         if f:
             for cl in f["calls"]:
                 ctx.count("call:" + cl)
+            if any(cl[2] == "?" for cl in f["calls"]):
+                ctx.count("reply-unobservable (client reader ended by an I/O error before the close frame)")
         for key, detail in oracle(script, a):
             ctx.fail("oracle", key, {"script": script}, {"impl": a, "why": detail})
 
